@@ -247,7 +247,7 @@ impl Property for C04 {
         vec![
             "is_bus_day of a plain calendar (a leaf: week mask + holiday list) is taken as ground truth for built-in parts (the tables are C07's subject); the combination rule is re-derived from the parts".into(),
             "dates are midnight timestamps, as every caller passes".into(),
-            "holiday runs are at most 160 days long (mostly 1-12, sometimes a whole month, rarely 100-160 days), so the nearest eligible day is never a year away (the code compares month numbers only)".into(),
+            "single holiday runs are at most 160 days long (mostly 1-12, sometimes a whole month, rarely 100-160 days); runs of several members can chain to closures of more than a year (finding 13: the library used to compare month numbers only)".into(),
         ]
     }
 }
